@@ -56,6 +56,7 @@ class Check:
             self.replayed += r['replayed']; self.replay_ok += r['replay_ok']; self.silent += r['silent']
             summary['paths'] += r['paths']; summary['reference_cases'] += r['cases']; summary['oracle_silent'] += r['silent']
             for k, v in r['ref_kinds'].items(): summary['ref_outcomes'][k] = summary['ref_outcomes'].get(k, 0) + v
+            if r.get('truncated_paths'): summary['truncated_paths'] = summary.get('truncated_paths', 0) + r['truncated_paths']
             for k, v in r.get('silent_reasons', {}).items(): summary.setdefault('oracle_silent_reasons', {}); summary['oracle_silent_reasons'][k] = summary['oracle_silent_reasons'].get(k, 0) + v
             for s in r['samples']:
                 if len(self.samples) < 12: self.samples.append(s)
@@ -73,6 +74,7 @@ class Check:
         from families import randprog
         n = n_quick if self.tier == 'quick' else n_thorough
         ts = randprog.templates(self.tier, self.seed, n, self.id)
+        for t in ts: t['max_dec'] = 7        # at most 2^7 paths per program; beyond that one side of each further branch is followed (truncated)
         self.bounds['random_programs'] = '%d generated programs (kind-tracking grammar over all documented constructs, weighted towards %s; VERIF_SEED), integer / boolean leaves symbolic' % (n, randprog.EMPH.get(self.id, 'nothing in particular'))
         return self.run_family('random-programs', ts, aspects, lambda v: 'randprog:%s:%s:%s' % (v.get('template'), v['aspect'], v['ref']), par_templates=8, par_paths=2, timeout=300)
 
